@@ -219,4 +219,47 @@ theorem outputsOf_take {ys : List Config} {ws : List (List Nat)} {labels : Optio
             subst h
             simp [outputsOf, ho, ih k hr]
 
+/-! ## several calls on one sampler -/
+
+theorem flagAfter_reset (old : Option Bool) (ok : Bool) : flagAfter true old ok = some ok := by
+  cases ok <;> rfl
+
+/-- after the repair of D48 a call through `_sampling_from_sequences` delivers what `sampleFromSeqs` delivers and
+reports that call's own flag, whatever the sampler's state was -/
+theorem seqCall_snd (s : Sampler) (degSeq : List Nat) (dimSeq : List (Nat × Nat)) (fd fm : Bool) (fixed : Config)
+    (t : OwnTape) :
+    (seqCall true s degSeq dimSeq fd fm fixed t).2 =
+      (sampleFromSeqs degSeq dimSeq fd fm fixed t).map (fun p => ⟨some p.1, p.2⟩) := by
+  unfold seqCall sampleFromSeqs
+  cases hm : matchSequences degSeq dimSeq fd fm t.picks with
+  | none => simp
+  | some st =>
+    simp only [Option.bind_some, flagAfter_reset]
+    cases sampleFromConfig st.cfg fixed none t <;> simp
+
+theorem callStep_snd (s : Sampler) (c : Call) :
+    (callStep true s c).2 =
+      match c.args with
+      | .hyg labels edges => (sampleFromHyg labels edges c.own).map (fun o => ⟨none, o⟩)
+      | .seqs d m => (sampleFromSeqs d m true true [] c.own).map (fun p => ⟨some p.1, p.2⟩)
+      | .model =>
+        (sampleFromSeqs c.inner.degSeq c.inner.dimSeq false false c.inner.dyads c.own).map
+          (fun p => ⟨some p.1, p.2⟩) := by
+  unfold callStep
+  cases c.args with
+  | hyg labels edges => rfl
+  | seqs d m => exact seqCall_snd s d m true true [] c.own
+  | model => exact seqCall_snd s _ _ false false _ c.own
+
+theorem callStep_local (s s' : Sampler) (c : Call) : (callStep true s c).2 = (callStep true s' c).2 := by
+  rw [callStep_snd, callStep_snd]
+
+theorem runSession_eq_map (s : Sampler) (cs : List Call) : runSession true s cs = cs.map freshCall := by
+  induction cs generalizing s with
+  | nil => rfl
+  | cons c cs ih =>
+    simp only [runSession, List.map_cons, ih]
+    congr 1
+    exact callStep_local s ⟨none⟩ c
+
 end C16
